@@ -12,7 +12,7 @@
    is proved relative to it, for EVERY token sequence of the dialect (no parse hypothesis: also
    sequences no program contains), every configuration and every keep file. *)
 From PV Require Import Base.Prelude Spec.LuaLex Instances.HoldsC02 Instances.HoldsC01
-  Generated.T_lexer Model.NameFactory Model.Lexer Model.TokWriters
+  Generated.T_lexer Generated.T_luanames Model.NameFactory Model.Lexer Model.TokWriters
   Proofs.LuaLexFacts Proofs.TokWritersProofs Proofs.MinifyRelex Proofs.MinifyRelations Proofs.MinifyEndToEnd.
 
 (* the writer never raises *)
@@ -55,6 +55,18 @@ Theorem C01_holds_all : forall cfg src out, Forall byte src -> luamin_text cfg [
   holds_C01 src out = true /\ holds_C19 src out = true.
 Proof. exact luamin_holds_all. Qed.
 Print Assumptions C01_holds_all.
+
+(* the identifier tokens of the written text, aligned with those of the source (names and label
+   names, in order), satisfy the instance predicate of C02: the renaming seen on the program is a
+   consistent injection that keeps keywords, builtins, keep-file names and - with keep_all - all
+   names, and generated names are fresh identifiers *)
+Theorem C01_identifiers_C02 : forall cfg src ss, Forall byte src -> spec_toks src = Some ss ->
+  exists out ss', luamin_text cfg [src] = Ok out /\ spec_toks out = Some ss' /\
+    length (sig_toks ss') = length (sig_toks ss) /\
+    holds_C02 (keep_all cfg) (keep_list cfg) preserved_names
+      (ident_names (sig_toks ss)) (ident_names (sig_toks ss')) = true.
+Proof. exact luamin_identifiers. Qed.
+Print Assumptions C01_identifiers_C02.
 
 (* directly on reference tokens (the writer only looks at class and code) *)
 Theorem C01_holds_spec_tokens : forall cfg src ss chunks,
